@@ -5,7 +5,8 @@
    variants (their own VCF anchor for the reference alleles) likewise, and so is the PAM record under background variants (its
    position is a reference coordinate: it is valid against the protected background sequence re-anchored there).  Rows of
    custom variants under background variants included. *)
-From VV Require Import Model.Base Model.Pattern Model.Seq Model.Vcf Model.Gpo Model.ToCsv Proofs.VcfRecordProofs Proofs.MaveRowProofs Proofs.VcfRowProofs Proofs.VcfRowCustomProofs Proofs.VcfRowBgProofs.
+From VV Require Import Model.Base Model.Pattern Model.Seq Model.Vcf Model.Gpo Model.ToCsv Proofs.VcfRecordProofs Proofs.MaveRowProofs Proofs.VcfRowProofs Proofs.VcfRowCustomProofs Proofs.VcfRowBgProofs
+  Generated.KernelsMetaRow Proofs.KernelMetaRowEquiv.
 
 (* substitutions and widened records (both alleles non-empty, no anchor): no empty allele, REF is the sequence at POS,
    REF->ALT reproduces the target, for any flanks P, S *)
@@ -182,6 +183,15 @@ Example C09_example :
   mk_record 9 (mkAl (d "AG") (Some T)) (mkAl [] (Some T)) None = Ok (mkRec 9 (d "TAG") (d "T") None).
 Proof. vm_compute. reflexivity. Qed.
 
+(* the span a row is reported on when it shares a codon with a PAM edit (MetaRow.pam_ref_start / pam_ref_end / pam_ref_range / overlaps_codon,
+   translated from meta_row.py on every run: optional columns narrowed by `is None`) is the span of the to_csv model the theorems above
+   speak about: from the smaller of the mutation's start and the edit at its first codon to the larger of its end and the edit at its last codon *)
+Theorem C09_widened_span_matches_source : forall mr,
+  k_mr_pam_ref_range mr = mk_range (opt_min (mr_alt_pos mr) (mr_start_ppe mr)) (opt_max (mr_end mr) (mr_end_ppe mr)) /\
+  k_mr_overlaps_codon mr = Ok (is_some (mr_start_exon mr) || is_some (mr_end_exon mr)) /\
+  k_mr_alt_ref_range mr = mk_range (mr_alt_pos mr) (mr_end mr).
+Proof. intros mr. exact (conj (k_mr_pam_ref_range_eq mr) (conj (k_mr_overlaps_codon_eq mr) (k_mr_alt_ref_range_eq mr))). Qed.
+
 Print Assumptions C09_record_substitution.
 Print Assumptions C09_record_anchored.
 Print Assumptions C09_sge_ref_iff.
@@ -195,3 +205,4 @@ Print Assumptions C09_custom_example.
 Print Assumptions C09_row_pam_record_ok_under_background.
 Print Assumptions C09_custom_indel_pam_record_ok_under_background.
 Print Assumptions C09_custom_subst_pam_record_ok_under_background.
+Print Assumptions C09_widened_span_matches_source.
